@@ -16,14 +16,18 @@ Import ListNotations.
 From Verif Require Import CallConv.ShuffleModel CallConv.SolverModel.
 Local Open Scope Z_scope.
 
-Inductive farch := FX64 | FA64.
+(* FX64A: x86-64 with AVX enabled in the emitter (VEX encodings: a vector register write zeroes the rest of the 512-bit register; 32 / 64-byte
+   vectors in YMM / ZMM);  FX86: 32-bit x86 (integers up to 4 bytes; no 8-bit view of ESI / EDI / EBP / ESP) *)
+Inductive farch := FX64 | FA64 | FX64A | FX86.
 
 Record fvar := mkFV { f_cur : loc; f_csz : Z; f_csg : bool; f_out : loc; f_osz : Z; f_osg : bool; f_int : bool; f_done : bool }.
 
 (* arch_traits.has_inst_reg_swap(group) *)
-Definition grp_swap (a : farch) (g : Z) : bool := match a with FX64 => g =? 0 | FA64 => false end.
+Definition grp_swap (a : farch) (g : Z) : bool := match a with FA64 => false | _ => g =? 0 end.
 
 Definition iw (osz : Z) : Z := if osz =? 8 then 64 else 32.
+(* width of the vector register view that holds a value of csz bytes *)
+Definition vw (csz : Z) : Z := if csz <=? 16 then 128 else 8 * csz.
 Definition is_regl (l : loc) : bool := match l with Reg _ _ => true | Mem _ _ => false end.
 
 (* emit_arg_move: the instruction that brings a value of type (csz, csg) at `src` (register or incoming stack slot) into the
@@ -31,7 +35,7 @@ Definition is_regl (l : loc) : bool := match l with Reg _ _ => true | Mem _ _ =>
 Definition fconv (a : farch) (dst src : loc) (int : bool) (csz : Z) (csg : bool) (osz : Z) (osg : bool) : minst :=
   if int then
     match a with
-    | FX64 =>
+    | FX64 | FX64A | FX86 =>
         if csg && osg && (csz <? osz) then IExt dst src ES (8 * csz) (8 * osz) (if 4 <=? osz then 64 else 8 * osz)   (* movsx / movsxd *)
         else let m := Z.min csz osz in
              if m <? 4 then IExt dst src EZ (8 * m) 32 64                      (* movzx r32, r/m8 | r/m16 *)
@@ -54,13 +58,20 @@ Definition fconv (a : farch) (dst src : loc) (int : bool) (csz : Z) (csg : bool)
     end
   else
     match a with
-    | FX64 => if is_regl src then IExt dst src EZ 128 128 128                  (* movaps xmm, xmm *)
+    | FX64 | FX86 =>
+              if is_regl src then IExt dst src EZ 128 128 128                  (* movaps xmm, xmm *)
               else IExt dst src EZ (8 * csz) (8 * csz) 128                     (* movd / movq / movups|movaps xmm, [mem] *)
+    | FX64A => if is_regl src then IExt dst src EZ (vw csz) (vw csz) 512       (* vmovaps xmm|ymm|zmm *)
+               else IExt dst src EZ (8 * csz) (8 * csz) 512                    (* vmovd / vmovq / vmovups|vmovaps [mem] *)
     | FA64 => IExt dst src EZ (8 * csz) (8 * csz) 128                          (* fmov s | mov v.8b | mov v.16b | ldr s/d/q *)
     end.
 
 (* emit_reg_move to a destination slot: exactly n bits are written (integers: the destination type, fixes/C06-narrow-int-store) *)
 Definition fstore (dst : loc) (r : loc) (n : Z) : minst := IExt dst r EZ n n n.
+(* bits written by the store of a value of n bits held in register r: in 32-bit mode ESP / EBP / ESI / EDI have no 8-bit view, the
+   store of a 1-byte integer from one of them stays 32 bits wide (x86emithelper.cpp emit_reg_move) *)
+Definition store_bits (a : farch) (int : bool) (r : Z) (n : Z) : Z :=
+  match a with FX86 => if int && (n =? 8) && (4 <=? r) then 32 else n | _ => n end.
 
 Definition fneeds_ext (v : fvar) : bool := f_int v && (f_csz v <? f_osz v).
 
@@ -99,13 +110,13 @@ Definition stk_step (a : farch) (wgp wvec : list Z) (acc : option (list fvar * l
       match f_cur v with
       | Reg g r =>
           let ext := if fneeds_ext v then [fconv a (Reg g r) (Reg g r) true (f_csz v) (f_csg v) (f_osz v) (f_osg v)] else [] in
-          Some (fset vs i (fmoved v (f_out v) true), em ++ ext ++ [fstore (f_out v) (Reg g r) n])
+          Some (fset vs i (fmoved v (f_out v) true), em ++ ext ++ [fstore (f_out v) (Reg g r) (store_bits a (f_int v) r n)])
       | Mem _ _ =>
           match zmin_list (favail wgp wvec vs 0) with
           | None => None                                                     (* no free GP register: kInvalidState *)
           | Some sc =>
               Some (fset vs i (fmoved v (f_out v) true),
-                    em ++ [fconv a (Reg 0 sc) (f_cur v) true (f_csz v) (f_csg v) (f_osz v) (f_osg v); fstore (f_out v) (Reg 0 sc) n])
+                    em ++ [fconv a (Reg 0 sc) (f_cur v) true (f_csz v) (f_csg v) (f_osz v) (f_osg v); fstore (f_out v) (Reg 0 sc) (store_bits a true sc n)])
           end
       end
     end
@@ -213,7 +224,7 @@ Definition fmove_of (v0 : fvar) : move :=
 (* the fragment (decidable): sizes, one variable per source / destination, register sources distinct from each other,
    same group on both sides, stack-to-stack only for integers, every source register a work register *)
 Definition int_size (z : Z) : bool := (z =? 1) || (z =? 2) || (z =? 4) || (z =? 8).
-Definition vec_size (z : Z) : bool := (z =? 4) || (z =? 8) || (z =? 16).
+Definition vec_size (z : Z) : bool := (z =? 4) || (z =? 8) || (z =? 16) || (z =? 32) || (z =? 64).
 Definition loc_ok (wgp wvec : list Z) (is_src : bool) (l : loc) : bool :=
   match l with
   | Reg g r => ((g =? 0) || (g =? 1)) && (0 <=? r) && (r <? 32) && existsb (Z.eqb r) (work_of wgp wvec g)
@@ -232,3 +243,9 @@ Definition fvar_ok (wgp wvec : list Z) (v : fvar) : bool :=
 Definition fwf_inputb (wgp wvec : list Z) (vs : list fvar) : bool :=
   forallb (fvar_ok wgp wvec) vs && nodup_locs (map f_cur vs) && nodup_locs (map f_out vs) &&
   forallb (fun v => Bool.eqb (f_done v) (f_done (finit (f_cur v) (f_csz v) (f_csg v) (f_out v) (f_osz v) (f_osg v) (f_int v)))) vs.
+
+(* what the target adds: 32-bit x86 has no 8-byte integers in GP registers; 32 / 64-byte vectors need the VEX / EVEX encodings *)
+Definition fvar_arch_ok (a : farch) (v : fvar) : bool :=
+  if f_int v then (match a with FX86 => (f_csz v <=? 4) && (f_osz v <=? 4) | _ => true end)
+  else (match a with FX64A => true | _ => f_csz v <=? 16 end).
+Definition farch_okb (a : farch) (vs : list fvar) : bool := forallb (fvar_arch_ok a) vs.
